@@ -89,6 +89,13 @@ class NF:
             kind, elt, gens = t[1], t[2], t[3]
             if len(gens) == 1 and isinstance(gens[0][0], str) and gens[0][0].isidentifier():
                 var, it, conds = gens[0]
+                if it[0] == "call" and it[1] in (("global", "itertools.chain"), ("global", "chain")) and len(it[2]) >= 2 and not it[3] \
+                        and not conds:
+                    # [f(x) for x in chain(A, B)] is [f(x) for x in A + B]
+                    xs = self.nf(it[2][0])
+                    for a in it[2][1:]:
+                        xs = ("concat", xs, self.nf(a))
+                    return self._map(self.nf(subst(elt, ("bv", var), IT)), xs)
                 xs = self.nf(it)
                 f = self.nf(subst(elt, ("bv", var), IT))
                 if conds:
